@@ -14,6 +14,8 @@
 -/
 import MitmVerif.Model.C40
 import MitmVerif.Model.C40_Http
+import MitmVerif.Model.C31
+import MitmVerif.Model.C40_Obj
 namespace MitmVerif.Props.C40
 open MitmVerif.C40
 
@@ -848,6 +850,480 @@ theorem setContent_sets_length (m : Msg) (b : Bytes) (ht : hdrHas m.headers tran
     (setContent m (some b)).content = some b ∧ hdrHas (setContent m (some b)).headers contentLength = true := by
   simp [setContent, ht, hdrSet_has]
 
+-- ---------------------------------------------------------------- reachable stores (no-aliasing hypothesis derived)
+/-- every store reachable from one flow created from a state by any typed history has no aliasing -/
+theorem sep_reachable (ip : Nat → Bool) (d : Comp) (id : Nat) (live : Bool) (cs : List Comp) (pre : List TOp) :
+    Sep (runT ip (newFlow (empty d) id live cs) pre) :=
+  typed_sep_preserved ip _ pre (sep_newFlow _ id live cs (sep_empty d))
+
+/-- `typed_revert_restores` for reachable stores: the hypothesis `Sep σ` is derived -/
+theorem typed_revert_restores_reachable (ip : Nat → Bool) (d : Comp) (id : Nat) (live : Bool) (cs : List Comp)
+    (pre ts : List TOp) (a : Nat) (f : FlowObj Comp)
+    (hf : (runT ip (newFlow (empty d) id live cs) pre).flows[a]? = some f) (hnb : f.backup = none)
+    (hts : TOp.revert a ∉ ts) :
+    ∃ f', (revert ip (runT ip (backupOp (runT ip (newFlow (empty d) id live cs) pre) a) ts) a).flows[a]? = some f' ∧
+          getState (revert ip (runT ip (backupOp (runT ip (newFlow (empty d) id live cs) pre) a) ts) a) f' =
+            (f.id, content (runT ip (newFlow (empty d) id live cs) pre) f, none) ∧ f'.live = f.live :=
+  typed_revert_restores ip _ a f ts (sep_reachable ip d id live cs pre) hf hnb hts
+
+/-- `typed_copy_independent` for reachable stores -/
+theorem typed_copy_independent_reachable (ip : Nat → Bool) (d : Comp) (id : Nat) (live : Bool) (cs : List Comp)
+    (pre ts : List TOp) (b : Nat) (fb : FlowObj Comp)
+    (hfb : (runT ip (newFlow (empty d) id live cs) pre).flows[b]? = some fb) (hts : ∀ t ∈ ts, t.target ≠ b) :
+    (runT ip (runT ip (newFlow (empty d) id live cs) pre) ts).flows[b]? = some fb ∧
+    getState (runT ip (runT ip (newFlow (empty d) id live cs) pre) ts) fb =
+      getState (runT ip (newFlow (empty d) id live cs) pre) fb :=
+  typed_copy_independent ip _ b fb ts (sep_reachable ip d id live cs pre) hfb hts
+
+-- ---------------------------------------------------------------- set_content with Content-Encoding (ties to the C31 model)
+private theorem getAll_del_self (h : Fields) (k : Bytes) : hdrGetAll (hdrDel h k) k = [] := by
+  induction h with
+  | nil => rfl
+  | cons kv rest ih =>
+    simp only [hdrDel, List.filter_cons]
+    split
+    · rename_i hne
+      simp only [hdrGetAll, List.filterMap_cons]
+      have : ¬ kconv kv.1 = kconv k := by simpa using hne
+      simp only [this, if_false]
+      exact ih
+    · exact ih
+
+private theorem getAll_del_other (h : Fields) (k k' : Bytes) (hne : kconv k' ≠ kconv k) :
+    hdrGetAll (hdrDel h k) k' = hdrGetAll h k' := by
+  induction h with
+  | nil => rfl
+  | cons kv rest ih =>
+    simp only [hdrDel, List.filter_cons]
+    split
+    · simp only [hdrGetAll, List.filterMap_cons]
+      simp only [hdrGetAll, hdrDel] at ih
+      rw [ih]
+    · rename_i heq
+      have h1 : kconv kv.1 = kconv k := by simpa using heq
+      have h2 : ¬ kconv kv.1 = kconv k' := fun e => hne (e.symm.trans h1)
+      simp only [hdrGetAll, List.filterMap_cons, h2, if_false]
+      simp only [hdrGetAll, hdrDel] at ih
+      exact ih
+
+private theorem getAll_setAll_self (k v : Bytes) :
+    ∀ h : Fields, hdrGetAll (setAllAux k v h true) k = [] ∧ hdrGetAll (setAllAux k v h false) k = [v] := by
+  intro h
+  induction h with
+  | nil => simp [setAllAux, hdrGetAll]
+  | cons kv rest ih =>
+    obtain ⟨k0, v0⟩ := kv
+    simp only [setAllAux]
+    by_cases he : kconv k0 = kconv k
+    · simp only [he, if_true, Bool.false_eq_true, if_false]
+      refine ⟨ih.1, ?_⟩
+      simp only [hdrGetAll, List.filterMap_cons, he, if_true]
+      have := ih.1; simp only [hdrGetAll] at this; rw [this]
+    · simp only [he, if_false]
+      simp only [hdrGetAll, List.filterMap_cons, he, if_false]
+      exact ih
+
+private theorem getAll_setAll_other (k v k' : Bytes) (hne : kconv k' ≠ kconv k) :
+    ∀ (h : Fields) (u : Bool), (u = false → True) → hdrGetAll (setAllAux k v h u) k' =
+      hdrGetAll h k' ++ (if u then [] else []) := by
+  intro h
+  induction h with
+  | nil =>
+    intro u _
+    cases u
+    · have : ¬ kconv k = kconv k' := fun e => hne e.symm
+      simp [setAllAux, hdrGetAll, this]
+    · simp [setAllAux, hdrGetAll]
+  | cons kv rest ih =>
+    intro u _
+    obtain ⟨k0, v0⟩ := kv
+    simp only [setAllAux]
+    by_cases he : kconv k0 = kconv k
+    · have h2 : ¬ kconv k0 = kconv k' := fun e => hne (e.symm.trans he)
+      simp only [he, if_true]
+      cases u
+      · simp only [Bool.false_eq_true, if_false, hdrGetAll, List.filterMap_cons, h2]
+        have := ih true (fun _ => trivial); simp only [hdrGetAll] at this; simpa using this
+      · simp only [if_true, hdrGetAll, List.filterMap_cons, h2, if_false]
+        have := ih true (fun _ => trivial); simp only [hdrGetAll] at this; simpa using this
+    · simp only [he, if_false, hdrGetAll, List.filterMap_cons]
+      have := ih u (fun _ => trivial); simp only [hdrGetAll] at this
+      split
+      · simp at this ⊢; exact this
+      · simp at this ⊢; exact this
+
+private theorem has_iff_getAll (h : Fields) (k : Bytes) : hdrHas h k = !(hdrGetAll h k).isEmpty := by
+  induction h with
+  | nil => rfl
+  | cons kv rest ih =>
+    simp only [hdrHas, List.any_cons, hdrGetAll, List.filterMap_cons] at ih ⊢
+    by_cases he : kconv kv.1 = kconv k
+    · simp [he]
+    · simp [he, ih]
+
+/-- `headers[k] = v` then `headers.get(k)` is v (exactly one field is left for the key) -/
+theorem hdrGet_set_self (h : Fields) (k v : Bytes) : hdrGet (hdrSet h k v) k = some v := by
+  simp [hdrGet, hdrSet, (getAll_setAll_self k v h).2, joinComma]
+
+/-- `headers[k] = v` does not disturb any other header name -/
+theorem hdrGet_set_other (h : Fields) (k v k' : Bytes) (hne : kconv k' ≠ kconv k) :
+    hdrGet (hdrSet h k v) k' = hdrGet h k' ∧ hdrHas (hdrSet h k v) k' = hdrHas h k' := by
+  have := getAll_setAll_other k v k' hne h false (fun _ => trivial)
+  simp only [Bool.false_eq_true, if_false, List.append_nil] at this
+  simp only [hdrGet, hdrSet, has_iff_getAll, this, and_self]
+
+/-- `del headers[k]`: the name is gone, every other name is untouched -/
+theorem hdrGet_del (h : Fields) (k k' : Bytes) :
+    hdrGet (hdrDel h k) k = none ∧
+    (kconv k' ≠ kconv k → hdrGet (hdrDel h k) k' = hdrGet h k' ∧ hdrHas (hdrDel h k) k' = hdrHas h k') := by
+  refine ⟨by simp [hdrGet, getAll_del_self], fun hne => ?_⟩
+  simp only [hdrGet, has_iff_getAll, getAll_del_other h k k' hne, and_self]
+
+private theorem names_distinct :
+    kconv contentLength ≠ kconv contentEncoding ∧ kconv contentLength ≠ kconv transferEncoding ∧
+    kconv contentEncoding ≠ kconv transferEncoding := by decide
+
+/-- the C31 view of a typed message: body, Content-Encoding value, Transfer-Encoding present, and
+    "Content-Length is str(n)" (one direction: what C31 claims about the header holds of the real header list) -/
+def RefinesC31 (a : C31.Msg) (m : Msg) : Prop :=
+  a.raw = m.content ∧ a.ce = hdrGet m.headers contentEncoding ∧ a.te = hdrHas m.headers transferEncoding ∧
+  (∀ n, a.cl = some n → hdrGet m.headers contentLength = some (decimal n))
+
+/-- what the typed edit is told about `encoding.encode`, as a function of C31's outcome -/
+def encResOf : C31.Res → Option EncRes
+  | .ok x => some (.ok x)
+  | .verr => some .verr
+  | _ => none
+
+/-- **C40 ⊑ C31 (set_content with Content-Encoding).** The header-list transcription of `Message.set_content`
+    used by the typed C40 model refines C31's model of the same method for EVERY message, cache state and codec
+    answer: if the abstract message describes the typed one before `.content = v`, it does so afterwards — the
+    body becomes the encoded bytes (or the plain value with the Content-Encoding header deleted when the coding
+    is invalid), and Content-Length is rewritten unless Transfer-Encoding is present. -/
+theorem setContentCE_refines_C31 (c : C31.Cache) (a : C31.Msg) (m : Msg) (v : Option Bytes) (fresh : C31.Res)
+    (r : EncRes) (href : RefinesC31 a m)
+    (hr : ∀ b, v = some b → encResOf (C31.encodeStep c b (C31.ceOrIdentity a.ce) C31.strictB fresh).1 = some r) :
+    RefinesC31 (C31.setContent c a v fresh).2.2 (setContentCE m v r) := by
+  obtain ⟨h1, h2, h3, h4⟩ := href
+  obtain ⟨d1, d2, d3⟩ := names_distinct
+  cases v with
+  | none => exact ⟨rfl, h2, h3, h4⟩
+  | some b =>
+    have hr' := hr b rfl
+    simp only [C31.setContent, setContentCE]
+    rcases hres : C31.encodeStep c b (C31.ceOrIdentity a.ce) C31.strictB fresh with ⟨res, c'⟩
+    rw [hres] at hr'
+    cases res with
+    | ok x =>
+      simp only [encResOf, Option.some.injEq] at hr'; subst hr'
+      simp only [C31.fixLen]
+      by_cases hte : a.te = true
+      · have hte' : hdrHas m.headers transferEncoding = true := by rw [← h3]; exact hte
+        simp only [hte, if_true, hte']
+        exact ⟨rfl, h2, hte'.symm, h4⟩
+      · have hte0 : a.te = false := by simpa using hte
+        have hte' : hdrHas m.headers transferEncoding = false := by rw [← h3]; exact hte0
+        simp only [hte0, Bool.false_eq_true, if_false, hte']
+        refine ⟨rfl, ?_, ?_, ?_⟩
+        · simp only; rw [(hdrGet_set_other _ _ _ _ (Ne.symm d1)).1]; exact h2
+        · simp only; rw [(hdrGet_set_other _ _ _ _ (Ne.symm d2)).2]; exact hte'.symm
+        · intro n hn
+          simp only [Option.map_some, Option.some.injEq] at hn
+          subst hn
+          simp [hdrGet_set_self]
+    | verr =>
+      simp only [encResOf, Option.some.injEq] at hr'; subst hr'
+      simp only [C31.fixLen]
+      have g1 := (hdrGet_del m.headers contentEncoding transferEncoding).2 (Ne.symm d3)
+      have g2 := (hdrGet_del m.headers contentEncoding contentLength).2 d1
+      have g0 := (hdrGet_del m.headers contentEncoding contentEncoding).1
+      by_cases hte : a.te = true
+      · have hte' : hdrHas (hdrDel m.headers contentEncoding) transferEncoding = true := by rw [g1.2, ← h3]; exact hte
+        simp only [hte, if_true, hte']
+        exact ⟨rfl, g0.symm, hte'.symm, fun n hn => by rw [g2.1]; exact h4 n hn⟩
+      · have hte0 : a.te = false := by simpa using hte
+        have hte' : hdrHas (hdrDel m.headers contentEncoding) transferEncoding = false := by rw [g1.2, ← h3]; exact hte0
+        simp only [hte0, Bool.false_eq_true, if_false, hte']
+        refine ⟨rfl, ?_, ?_, ?_⟩
+        · simp only; rw [(hdrGet_set_other _ _ _ _ (Ne.symm d1)).1]; exact g0.symm
+        · simp only; rw [(hdrGet_set_other _ _ _ _ (Ne.symm d2)).2]; exact hte'.symm
+        · intro n hn
+          simp only [Option.map_some, Option.some.injEq] at hn
+          subst hn
+          simp [hdrGet_set_self]
+    | str => simp [encResOf] at hr'
+    | terr => simp [encResOf] at hr'
+    | nil => simp [encResOf] at hr'
+    | done => simp [encResOf] at hr'
+
+/-- without a Content-Encoding header the general transcription is the round-3 one (`encode(v, "identity") = v`) -/
+theorem setContentCE_identity (m : Msg) (b : Bytes) : setContentCE m (some b) (.ok b) = setContent m (some b) := by
+  simp only [setContentCE, setContent]
+  split <;> simp
+
+-- ---------------------------------------------------------------- object layer (Model/C40_Obj.lean)
+/-- the Headers objects of a message are allocated and the trailers object is not the headers object -/
+def WfObj (h : OHeap) (o : MsgObj) : Prop :=
+  o.headers < h.next ∧ ∀ ad, o.trailers = some ad → ad < h.next ∧ ad ≠ o.headers
+
+/-- two message objects share no Headers object -/
+def DisjObj (o1 o2 : MsgObj) : Prop := ∀ a ∈ o1.refs, a ∉ o2.refs
+
+private theorem mem_refs (o : MsgObj) (a : Addr) : a ∈ o.refs ↔ a = o.headers ∨ o.trailers = some a := by
+  simp only [MsgObj.refs, List.mem_cons]
+  cases o.trailers with
+  | none => simp
+  | some ad => simp [eq_comm]
+
+private theorem getState_congr (h h' : OHeap) (o : MsgObj) (hc : ∀ a ∈ o.refs, h'.cells a = h.cells a) :
+    o.getState h' = o.getState h := by
+  have h1 := hc o.headers ((mem_refs o _).mpr (Or.inl rfl))
+  simp only [MsgObj.getState, h1]
+  cases ht : o.trailers with
+  | none => rfl
+  | some ad =>
+    have h2 := hc ad ((mem_refs o _).mpr (Or.inr ht))
+    simp [h2]
+
+private theorem writeBack_spec (h : OHeap) (o : MsgObj) (m : Msg) (hw : WfObj h o)
+    (hs : m.trailers.isSome = o.trailers.isSome) :
+    (writeBack h o m).2.getState (writeBack h o m).1 = m ∧ (writeBack h o m).1.next = h.next ∧
+    (writeBack h o m).2.headers = o.headers ∧ (writeBack h o m).2.trailers = o.trailers ∧
+    (∀ a, a ∉ o.refs → (writeBack h o m).1.cells a = h.cells a) := by
+  obtain ⟨_, hw2⟩ := hw
+  cases ht : o.trailers with
+  | none =>
+    have hm : m.trailers = none := by rw [ht] at hs; simpa using hs
+    refine ⟨?_, rfl, rfl, by simp [writeBack, ht], ?_⟩
+    · cases m; simp_all [writeBack, MsgObj.getState, updF]
+    · intro a ha
+      have : a ≠ o.headers := fun e => ha ((mem_refs o a).mpr (Or.inl e))
+      simp [writeBack, ht, updF, this]
+  | some ad =>
+    obtain ⟨t, hm⟩ : ∃ t, m.trailers = some t := by
+      rw [ht] at hs; exact Option.isSome_iff_exists.mp (by simpa using hs)
+    have hne : ad ≠ o.headers := (hw2 ad ht).2
+    refine ⟨?_, rfl, rfl, by simp [writeBack, ht], ?_⟩
+    · cases m; simp_all [writeBack, MsgObj.getState, updF, Ne.symm hne]
+    · intro a ha
+      have h1 : a ≠ o.headers := fun e => ha ((mem_refs o a).mpr (Or.inl e))
+      have h2 : a ≠ ad := fun e => ha ((mem_refs o a).mpr (Or.inr (e ▸ ht)))
+      simp [writeBack, ht, hm, updF, h1, h2]
+
+private theorem setContent_trailers (m : Msg) (v : Option Bytes) : (setContent m v).trailers = m.trailers := by
+  unfold setContent; split
+  · rfl
+  · split <;> rfl
+
+private theorem setContentCE_trailers (m : Msg) (v : Option Bytes) (r : EncRes) :
+    (setContentCE m v r).trailers = m.trailers := by
+  unfold setContentCE
+  cases v with
+  | none => rfl
+  | some b => cases r <;> (simp only; split <;> rfl)
+
+/-- what one edit of a message object does: the object's get_state() changes exactly as the value-level edit of
+    the typed model says, the object stays well formed, and cells of Headers objects it does not own are untouched;
+    `.headers = …` / `.trailers = …` bind a NEW object (address ≥ the old allocation pointer) -/
+theorem obj_edit_simulates (e : MsgEdit) (h : OHeap) (o : MsgObj) (hw : WfObj h o) :
+    (applyObj e h o).2.getState (applyObj e h o).1 = e.apply (o.getState h) ∧
+    WfObj (applyObj e h o).1 (applyObj e h o).2 ∧ h.next ≤ (applyObj e h o).1.next ∧
+    (∀ a, a < h.next → a ∉ o.refs → (applyObj e h o).1.cells a = h.cells a) ∧
+    (∀ a ∈ (applyObj e h o).2.refs, a ∈ o.refs ∨ h.next ≤ a) := by
+  have inplace : ∀ m : Msg, m.trailers.isSome = o.trailers.isSome →
+      (writeBack h o m).2.getState (writeBack h o m).1 = m ∧ WfObj (writeBack h o m).1 (writeBack h o m).2 ∧
+      h.next ≤ (writeBack h o m).1.next ∧
+      (∀ a, a < h.next → a ∉ o.refs → (writeBack h o m).1.cells a = h.cells a) ∧
+      (∀ a ∈ (writeBack h o m).2.refs, a ∈ o.refs ∨ h.next ≤ a) := by
+    intro m hs
+    obtain ⟨a1, a2, a3, a4, a5⟩ := writeBack_spec h o m hw hs
+    refine ⟨a1, ?_, by rw [a2]; exact Nat.le_refl _, fun a _ ha => a5 a ha, ?_⟩
+    · refine ⟨by rw [a2, a3]; exact hw.1, ?_⟩
+      intro ad had; rw [a4] at had; rw [a2, a3]; exact hw.2 ad had
+    · intro a ha
+      left
+      rw [mem_refs] at ha ⊢
+      rw [a3, a4] at ha; exact ha
+  have hsome : ∀ m : Msg, m.trailers = (o.getState h).trailers → m.trailers.isSome = o.trailers.isSome := by
+    intro m hm; rw [hm]; simp [MsgObj.getState]
+  cases e with
+  | atom k a => exact inplace _ (hsome _ rfl)
+  | hset k v => exact inplace _ (hsome _ rfl)
+  | hdel k => exact inplace _ (hsome _ rfl)
+  | hadd k v => exact inplace _ (hsome _ rfl)
+  | content v => exact inplace _ (hsome _ (setContent_trailers _ v))
+  | contentCE v r => exact inplace _ (hsome _ (setContentCE_trailers _ v r))
+  | thset k v =>
+    apply inplace
+    simp [MsgEdit.apply, MsgObj.getState]
+  | hrep f =>
+    simp only [applyObj]
+    refine ⟨?_, ⟨Nat.lt_succ_self _, ?_⟩, Nat.le_succ _, ?_, ?_⟩
+    · simp only [MsgObj.getState, MsgEdit.apply, updF, if_true]
+      cases ht : o.trailers with
+      | none => rfl
+      | some ad =>
+        have : ad ≠ h.next := Nat.ne_of_lt (hw.2 ad ht).1
+        simp [updF, this]
+    · intro ad had
+      have := hw.2 ad had
+      exact ⟨Nat.lt_succ_of_lt this.1, Nat.ne_of_lt this.1⟩
+    · intro a ha _
+      simp [updF, Nat.ne_of_lt ha]
+    · intro a ha
+      rw [mem_refs] at ha
+      rcases ha with ha | ha
+      · right; rw [ha]; exact Nat.le_refl _
+      · left; exact (mem_refs o a).mpr (Or.inr ha)
+  | tset t =>
+    cases t with
+    | none =>
+      simp only [applyObj]
+      refine ⟨?_, ⟨hw.1, fun ad had => by simp at had⟩, Nat.le_refl _, ?_, ?_⟩
+      · first | rfl | simp [MsgObj.getState, MsgEdit.apply]
+      · intro a _ _; first | rfl | trivial
+      intro a ha
+      rw [mem_refs] at ha
+      rcases ha with ha | ha
+      · left; exact (mem_refs o a).mpr (Or.inl ha)
+      · simp at ha
+    | some t =>
+      simp only [applyObj]
+      refine ⟨?_, ⟨Nat.lt_succ_of_lt hw.1, ?_⟩, Nat.le_succ _, ?_, ?_⟩
+      · simp [MsgObj.getState, MsgEdit.apply, updF, Nat.ne_of_lt hw.1]
+      · intro ad had
+        simp only [Option.some.injEq] at had
+        subst had
+        exact ⟨Nat.lt_succ_self _, Ne.symm (Nat.ne_of_lt hw.1)⟩
+      · intro a ha _
+        simp [updF, Nat.ne_of_lt ha]
+      · intro a ha
+        rw [mem_refs] at ha
+        rcases ha with ha | ha
+        · left; exact (mem_refs o a).mpr (Or.inl ha)
+        · simp only [Option.some.injEq] at ha; right; rw [← ha]; exact Nat.le_refl _
+
+/-- **C40 (no sharing below the component level), one edit.** Editing message object o1 — in place through its
+    Headers objects or by binding new ones — leaves the get_state() of every message object o2 that shares no
+    Headers object with it unchanged, and they still share nothing afterwards. -/
+theorem obj_edit_frame (e : MsgEdit) (h : OHeap) (o1 o2 : MsgObj) (hw1 : WfObj h o1) (hw2 : WfObj h o2)
+    (hd : DisjObj o1 o2) :
+    o2.getState (applyObj e h o1).1 = o2.getState h ∧ WfObj (applyObj e h o1).1 o2 ∧
+    DisjObj (applyObj e h o1).2 o2 := by
+  obtain ⟨_, _, hn, hc, hr⟩ := obj_edit_simulates e h o1 hw1
+  have hlt : ∀ a ∈ o2.refs, a < h.next := by
+    intro a ha
+    rcases (mem_refs o2 a).mp ha with e' | e'
+    · rw [e']; exact hw2.1
+    · exact (hw2.2 a e').1
+  refine ⟨?_, ?_, ?_⟩
+  · apply getState_congr
+    intro a ha
+    exact hc a (hlt a ha) (fun h1 => hd a h1 ha)
+  · exact ⟨Nat.lt_of_lt_of_le hw2.1 hn, fun ad had => ⟨Nat.lt_of_lt_of_le (hw2.2 ad had).1 hn, (hw2.2 ad had).2⟩⟩
+  · intro a ha h2
+    rcases hr a ha with h1 | h1
+    · exact hd a h1 h2
+    · exact Nat.lt_irrefl _ (Nat.lt_of_lt_of_le (hlt a h2) h1)
+
+/-- **C40 (from_state builds fresh objects).** `Message.from_state(s)` yields an object whose get_state() is s
+    (round trip), built only from Headers objects allocated by the call: it shares nothing with any existing
+    message object, and existing objects keep their state.  Derived from the transcription, not assumed. -/
+theorem fromState_fresh_roundtrip (h : OHeap) (s : Msg) :
+    (MsgObj.fromState h s).2.getState (MsgObj.fromState h s).1 = s ∧
+    WfObj (MsgObj.fromState h s).1 (MsgObj.fromState h s).2 ∧
+    (∀ a ∈ (MsgObj.fromState h s).2.refs, h.next ≤ a) ∧
+    (∀ o2, WfObj h o2 → o2.getState (MsgObj.fromState h s).1 = o2.getState h ∧ WfObj (MsgObj.fromState h s).1 o2 ∧
+        DisjObj (MsgObj.fromState h s).2 o2) := by
+  have hfresh : (∀ a ∈ (MsgObj.fromState h s).2.refs, h.next ≤ a) := by
+    intro a ha
+    rw [mem_refs] at ha
+    cases ht : s.trailers with
+    | none => simp only [MsgObj.fromState, ht] at ha; rcases ha with ha | ha <;> simp_all
+    | some t =>
+      simp only [MsgObj.fromState, ht] at ha
+      rcases ha with ha | ha
+      · simp [ha]
+      · simp only [Option.some.injEq] at ha; rw [← ha]; exact Nat.le_succ _
+  have hcells : ∀ a, a < h.next → (MsgObj.fromState h s).1.cells a = h.cells a := by
+    intro a ha
+    cases ht : s.trailers with
+    | none => simp [MsgObj.fromState, ht, updF, Nat.ne_of_lt ha]
+    | some t =>
+      have : a ≠ h.next + 1 := Nat.ne_of_lt (Nat.lt_succ_of_lt ha)
+      simp [MsgObj.fromState, ht, updF, Nat.ne_of_lt ha, this]
+  have hnext : h.next ≤ (MsgObj.fromState h s).1.next := by
+    cases ht : s.trailers <;> simp [MsgObj.fromState, ht]
+  refine ⟨?_, ?_, hfresh, ?_⟩
+  · cases ht : s.trailers with
+    | none => cases s; simp_all [MsgObj.fromState, MsgObj.getState, updF]
+    | some t => cases s; simp_all [MsgObj.fromState, MsgObj.getState, updF]
+  · cases ht : s.trailers with
+    | none => simp [MsgObj.fromState, ht, WfObj]
+    | some t =>
+      simp only [MsgObj.fromState, ht, WfObj]
+      refine ⟨Nat.lt_add_of_pos_right (by decide), ?_⟩
+      intro ad had
+      simp only [Option.some.injEq] at had
+      subst had
+      exact ⟨Nat.lt_succ_self _, Nat.succ_ne_self _⟩
+  · intro o2 hw2
+    have hlt : ∀ a ∈ o2.refs, a < h.next := by
+      intro a ha
+      rcases (mem_refs o2 a).mp ha with e' | e'
+      · rw [e']; exact hw2.1
+      · exact (hw2.2 a e').1
+    refine ⟨getState_congr _ _ _ (fun a ha => hcells a (hlt a ha)), ?_, ?_⟩
+    · exact ⟨Nat.lt_of_lt_of_le hw2.1 hnext, fun ad had => ⟨Nat.lt_of_lt_of_le (hw2.2 ad had).1 hnext, (hw2.2 ad had).2⟩⟩
+    · intro a ha h2
+      exact Nat.lt_irrefl _ (Nat.lt_of_lt_of_le (hlt a h2) (hfresh a ha))
+
+private theorem applyObjs_frame (es : List MsgEdit) :
+    ∀ (h : OHeap) (o1 o2 : MsgObj), WfObj h o1 → WfObj h o2 → DisjObj o1 o2 →
+      o2.getState (applyObjs es h o1).1 = o2.getState h ∧ WfObj (applyObjs es h o1).1 o2 ∧
+      WfObj (applyObjs es h o1).1 (applyObjs es h o1).2 ∧ DisjObj (applyObjs es h o1).2 o2 := by
+  induction es with
+  | nil => intro h o1 o2 h1 h2 hd; exact ⟨rfl, h2, h1, hd⟩
+  | cons e es ih =>
+    intro h o1 o2 h1 h2 hd
+    obtain ⟨f1, f2, f3⟩ := obj_edit_frame e h o1 o2 h1 h2 hd
+    obtain ⟨_, w1, _⟩ := obj_edit_simulates e h o1 h1
+    obtain ⟨g1, g2, g3, g4⟩ := ih _ _ o2 w1 f2 f3
+    simp only [applyObjs, List.foldl_cons] at g1 g2 g3 g4 ⊢
+    exact ⟨g1.trans f1, g2, g3, g4⟩
+
+/-- **C40 (copy independence below the component level, all histories).** Copy a message object
+    (get_state → from_state); then ANY sequence of edits of the original — header/trailer edits in place, body
+    assignments with their Content-Length / Content-Encoding side effects, new header or trailer objects — leaves
+    the copy's get_state() equal to the original's state at copy time, and ANY sequence of edits of the copy leaves
+    the original's state untouched.  (This is the level of the empty-trailers seed c40-5.) -/
+theorem obj_copy_independent (h : OHeap) (o : MsgObj) (es : List MsgEdit) (hw : WfObj h o) :
+    (MsgObj.copy h o).2.getState (applyObjs es (MsgObj.copy h o).1 o).1 = o.getState h ∧
+    o.getState (applyObjs es (MsgObj.copy h o).1 (MsgObj.copy h o).2).1 = o.getState h := by
+  obtain ⟨r1, r2, _, r4⟩ := fromState_fresh_roundtrip h (o.getState h)
+  obtain ⟨s1, s2, s3⟩ := r4 o hw
+  have hd' : DisjObj o (MsgObj.fromState h (o.getState h)).2 := fun a ha hb => s3 a hb ha
+  refine ⟨?_, ?_⟩
+  · have := (applyObjs_frame es _ o _ s2 r2 hd').1
+    simp only [MsgObj.copy]
+    rw [this]; exact r1
+  · have := (applyObjs_frame es _ _ o r2 s2 s3).1
+    simp only [MsgObj.copy]
+    rw [this]; exact s1
+
+/-- a history of object edits is the history of the value-level edits of the typed model -/
+theorem obj_edits_simulate (es : List MsgEdit) :
+    ∀ (h : OHeap) (o : MsgObj), WfObj h o →
+      (applyObjs es h o).2.getState (applyObjs es h o).1 = es.foldl (fun m e => e.apply m) (o.getState h) := by
+  induction es with
+  | nil => intro h o _; rfl
+  | cons e es ih =>
+    intro h o hw
+    obtain ⟨a1, a2, _⟩ := obj_edit_simulates e h o hw
+    have := ih _ _ a2
+    simp only [applyObjs, List.foldl_cons] at this ⊢
+    rw [this, a1]
+
 -- ---------------------------------------------------------------- non-vacuity (concrete store, V = Nat)
 private def σ0 : Store Nat := newFlow (empty 0) 7 true [10, 20, 30]
 private def ipx : Nat → Bool := fun j => j % 2 == 0
@@ -882,6 +1358,23 @@ example : (let σ := revert ipx (runT ipx (backupOp σe 0)
                .edit 0 (.ws (.append ⟨1, true, [], 0, false, false⟩)), .edit 0 (.resp (.thset [0x74] [0x32]))]) 0
            σ.flows.map (fun f => content σ f == content σe (σe.flows.headD f))) = [true, true] := by decide
 example : ((MsgEdit.thset [0x74] [0x31]).apply mE).trailers = some [([0x74], [0x31])] := by decide
+-- set_content with a Content-Encoding header: the encoded bytes and their length go in; an invalid coding is deleted
+private def mCE : Msg := { m0 with headers := [(contentEncoding, [0x67,0x7a,0x69,0x70]), (contentLength, [0x37])] }
+example : setContentCE mCE (some [1,2,3]) (.ok [9,9,9,9,9,9,9,9,9,9,9]) =
+    { mCE with content := some [9,9,9,9,9,9,9,9,9,9,9], headers := [(contentEncoding, [0x67,0x7a,0x69,0x70]), (contentLength, [0x31,0x31])] } := by decide
+example : setContentCE mCE (some [1,2,3]) .verr =
+    { mCE with content := some [1,2,3], headers := [(contentLength, [0x33])] } := by decide
+example : RefinesC31 ⟨none, some [0x67,0x7a,0x69,0x70], false, some 7, .absent, .h11⟩ mCE := by
+  refine ⟨rfl, by decide, by decide, ?_⟩
+  intro n hn; simp at hn; subst hn; decide
+-- object layer: a message with an EMPTY trailers object; copy; edit the original's trailers and headers in place;
+-- the copy still has the state of copy time, and `WfObj` holds of the example
+private def hO : OHeap := { cells := fun a => if a = 0 then [([0x78], [0x31])] else [], next := 2 }
+private def oO : MsgObj := { atoms := [1], headers := 0, content := none, trailers := some 1 }
+example : WfObj hO oO := ⟨by decide, fun ad had => by simp [oO] at had; subst had; decide⟩
+example : (let c := MsgObj.copy hO oO
+           let r := applyObjs [.thset [0x74] [0x31], .hdel [0x78], .content (some [1,2])] c.1 oO
+           (c.2.getState r.1 == oO.getState hO, r.2.getState r.1 == oO.getState hO)) = (true, false) := by decide
 private def σt : Store Comp := newFlow (empty (.flag false)) 7 true
   [.conn [1], .conn [2], .err none, .flag false, .atom 0, .atom 0, .mdata [], .atom 0, .atom 0, .req m0, .resp none, .ws none]
 -- backup, header edit + response assignment + copy + edit of the copy, revert: original back, copy keeps its edits
